@@ -497,7 +497,8 @@ def getExchangeTargets (T : Table) (rels : List RelID) : W (List RelID Ã— Bool Ã
       match T.colIdx r.comp with
       | none => .panic .noRelComponent w
       | some i =>
-        if r.target == targets.getD i Ent.zero then go targets changed cm rest
+        if !(T.isRel.getD i false) then .panic .notRelation w
+        else if r.target == targets.getD i Ent.zero then go targets changed cm rest
         else go (targets.set i r.target) true (cm.set r.comp) rest
   match go T.targets false Mask.empty rels with
   | .panic k w => .panic k w
@@ -518,7 +519,8 @@ def cleanupArchetypes (target : Ent) : W Unit := do
       M.forM' tables.tables.reverse fun tid => do
         let w â† M.get
         let T := w.tbl tid
-        let newRels := (T.relIDs.filter fun r => r.target.id == target.id).map
+        let newRels := (T.relIDs.filter fun r =>
+            r.target.id == target.id || (!r.target.isZero && !w.alive r.target)).map
           fun r => (âŸ¨r.comp, Ent.zeroâŸ© : RelID)
         if T.len > 0 then
           match getExchangeTargetsUnchecked T newRels with
@@ -723,7 +725,6 @@ def removeCore (e : Ent) (rem : List Comp) : W Unit := do
   let (oldT, row) := w.index e.id
   let oldMask := (w.arch (w.tbl oldT).arch).mask
   let (newT, _, mask, relRemoved) â† findOrCreateTableRemove oldT oldMask rem
-  let newIndex â† (fun w => let (N, i) := (w.tbl newT).add e; Res.ok i (w.setTbl newT N) : W Nat)
   let w â† M.get
   let hasCompObs := w.obs.hasObservers Ev.onRemoveComponents
   let hasRelObs := relRemoved && w.obs.hasObservers Ev.onRemoveRelations
@@ -732,6 +733,7 @@ def removeCore (e : Ent) (rem : List Comp) : W Unit := do
     if hasCompObs then let _ â† fireRemove run Ev.onRemoveComponents e oldMask mask true
     if hasRelObs then let _ â† fireRemove run Ev.onRemoveRelations e oldMask mask true
     unlock l
+  let newIndex â† (fun w => let (N, i) := (w.tbl newT).add e; Res.ok i (w.setTbl newT N) : W Nat)
   moveRow e oldT row newT newIndex mask
 
 /-- `World.exchange`. -/
@@ -743,7 +745,6 @@ def exchangeCore (e : Ent) (add rem : List Comp) (rels : List RelID) : W (Mask Ã
   let (oldT, row) := w.index e.id
   let oldMask := (w.arch (w.tbl oldT).arch).mask
   let (newT, newA, mask, relRemoved) â† findOrCreateTable oldT oldMask add rem rels
-  let newIndex â† (fun w => let (N, i) := (w.tbl newT).add e; Res.ok i (w.setTbl newT N) : W Nat)
   if !rem.isEmpty then
     let w â† M.get
     let hasCompObs := w.obs.hasObservers Ev.onRemoveComponents
@@ -753,6 +754,7 @@ def exchangeCore (e : Ent) (add rem : List Comp) (rels : List RelID) : W (Mask Ã
       if hasCompObs then let _ â† fireRemove run Ev.onRemoveComponents e oldMask mask true
       if hasRelObs then let _ â† fireRemove run Ev.onRemoveRelations e oldMask mask true
       unlock l
+  let newIndex â† (fun w => let (N, i) := (w.tbl newT).add e; Res.ok i (w.setTbl newT N) : W Nat)
   moveRow e oldT row newT newIndex mask
   registerTargets rels
   let w â† M.get
@@ -1090,10 +1092,9 @@ def setRelationsTable (oldT : Nat) (oldLen : Nat) (rels : List RelID) (withFn : 
   if withFn then batchFn newT start oldLen []
   let w â† M.get
   if w.obs.hasObservers Ev.onAddRelations then
-    -- the Go code reads `oldTable.GetEntity(startIdx+i)` here
-    let O := w.tbl oldT
+    let N := w.tbl newT
     fireRows (fun e eo => fireSet run Ev.onAddRelations e changeMask newMask eo)
-      ((List.range oldLen).map fun i => O.getEntity (start + i))
+      ((List.range oldLen).map fun i => N.getEntity (start + i))
 
 /-- `setRelationsBatch`. -/
 def setRelationsBatch (fo : FilterObj) (extra : List RelID) (rels : List RelID) (withFn : Bool) : W Unit := do
